@@ -169,21 +169,22 @@ struct Run
    bool Alive(int K) {return Has(K)&&(w.alive(widx[K]))&&(w.client(widx[K]).sock());}
    HSession & Sess(int K) {return w.session(widx[K]);}
 
-   // the real session id script index i has, or will have, in this run
+   // the real session id of script index i in this run; an index that is erased or not attached (yet) gets an id no session has
+   // (session ids come from a process-wide counter and other runs are interleaved, so they are recorded, not computed)
    unsigned long RealIdOf(long i) const
    {
-      if ((skip >= 0)&&(i == skip)) return 3999999999ul;
-      const long wi = ((skip >= 0)&&(i > skip)) ? (i-1) : i;
-      return (unsigned long)(_base() + wi);
+      if ((i >= 0)&&(i < (long)realId.size())&&(realId[i] != 0)) return realId[i];
+      return 3999000000ul + (unsigned long)((i >= 0) ? (i % 100000) : 99999);
    }
    long ScriptIdxOfReal(unsigned long id) const
    {
-      const long wi = (long)id - (long)_base();
-      if ((wi >= 0)&&(wi < (long)sidx.size())) return sidx[wi];
-      if (skip < 0) return wi;
-      return (wi >= skip) ? (wi+1) : wi;
+      std::map<unsigned long,long>::const_iterator it = scriptOf.find(id);
+      if (it != scriptOf.end()) return it->second;
+      if (id >= 3999000000ul) return (long)(id - 3999000000ul);
+      return 900000 + (long)(id % 1000);   // an id of no session of this run
    }
-   long _base() const {return (long) w.RealID(0);}
+   std::vector<unsigned long> realId;       // by script index; 0 = none
+   std::map<unsigned long,long> scriptOf;
 
    std::string ShiftClause(const std::string & cl, bool toReal) const   // decimal session index / comma list of them
    {
@@ -224,10 +225,12 @@ struct Run
    {
       const int si = nScript++;
       hosts.push_back(host);
-      if (si == skip) {widx.push_back(-1); return;}
+      if (si == skip) {widx.push_back(-1); realId.push_back(0); return;}
       g_nextHost = host;
       const int wi = w.AddSession();
       widx.push_back(wi);
+      realId.push_back((unsigned long) w.session(wi).GetSessionID());
+      scriptOf[realId.back()] = si;
       sidx.push_back(si);
       cs.push_back(ClientState());
    }
@@ -477,6 +480,33 @@ struct Run
       return Canon(np()) + "=" + Payload(n.GetData()()) + "{" + SubsOf(n, withoutScript) + "}";
    }
 
+   // a session's parameter Message in canonical text (field order kept; session ids inside SUBSCRIBE: names canonicalised)
+   std::string ParamStr(const Message & pm)
+   {
+      std::ostringstream o;
+      for (MessageFieldNameIterator it = pm.GetFieldNameIterator(); it.HasData(); it++)
+      {
+         const String & fn = it.GetFieldName();
+         std::string name = fn();
+         const std::string pre = PR_NAME_SUBSCRIBE_PREFIX;
+         if (name.compare(0, pre.size(), pre) == 0) name = pre + Canon(name.substr(pre.size()));
+         uint32 tc = 0, cnt = 0; (void) pm.GetInfo(fn, &tc, &cnt);
+         o << name << "#" << tc << "=";
+         for (uint32 i=0; i<cnt; i++)
+         {
+            int32 iv; bool bv; const String * sv; MessageRef mv;
+            if (i) o << ",";
+            if ((tc == B_INT32_TYPE)&&(pm.FindInt32(fn, i, iv).IsOK())) o << iv;
+            else if ((tc == B_BOOL_TYPE)&&(pm.FindBool(fn, i, bv).IsOK())) o << (bv ? 1 : 0);
+            else if ((tc == B_STRING_TYPE)&&(pm.FindString(fn, i, &sv).IsOK())) o << sv->Cstr();
+            else if ((tc == B_MESSAGE_TYPE)&&(pm.FindMessage(fn, i, mv).IsOK())&&(mv())) o << HexOf(*mv());
+            else o << "?";
+         }
+         o << ";";
+      }
+      return o.str();
+   }
+
    std::string SessStr(int si)
    {
       HSession & s = Sess(si);
@@ -559,7 +589,7 @@ struct Run
          if (w.alive(wi))
          {
             HSession & s = w.session(wi);
-            o << SessStr((int)si) << "P" << HexOf(s._parameters) << "R" << HexOf(s._defaultMessageRouteMessage)
+            o << SessStr((int)si) << "P" << ParamStr(s._parameters) << "R" << ParamStr(s._defaultMessageRouteMessage)
               << "e" << (s._subscriptionsEnabled ? 1 : 0) << "f" << s._defaultRoutingFlags.ToHexString()() << "n" << s._maxNodeCount << "d" << (w.srv._lameDuckSessions.ContainsKey(&s.GetSessionIDString()) ? 1 : 0);
          }
          o << " ";
@@ -577,7 +607,7 @@ struct Run
       std::ostringstream o;
       for (size_t i=0; i<nodes.size(); i++) o << nodes[i] << " ";
       o << "|| ";
-      for (size_t si=0; si<widx.size(); si++) if (((int)si != K)&&(Has((int)si))&&(w.alive(widx[si]))) o << SessStr((int)si) << "P" << HexOf(w.session(widx[si])._parameters) << " ";
+      for (size_t si=0; si<widx.size(); si++) if (((int)si != K)&&(Has((int)si))&&(w.alive(widx[si]))) o << SessStr((int)si) << "P" << ParamStr(w.session(widx[si])._parameters) << " ";
       return o.str();
    }
    static std::string IdxStr(const DataNode & n) {std::string r; std::vector<std::string> ix = IndexOf(n); for (size_t j=0; j<ix.size(); j++) r += ix[j] + ","; return r;}
@@ -801,6 +831,7 @@ static void RunCase(long k, const std::string & line)
             if ((!tr.empty())&&(reported.insert("tr"+itos((long)jj)+tr).second)) printf("%ld ORACLE FAIL detach-trace op#%d x%d byte %lu c%d %s\n", k, (int)j, (int)jj, (unsigned long)B, K, tr.c_str());
             if (unpriv)
             {
+               if ((r.ObsWithout(K) != baseObs)&&(getenv("ISO_DEBUG"))) fprintf(stderr, "BASE: %s\nCUT:  %s\n", baseObs.c_str(), r.ObsWithout(K).c_str());
                if ((r.ObsWithout(K) != baseObs)&&(reported.insert("ain"+itos((long)jj)).second)) printf("%ld ORACLE FAIL as-if-never op#%d x%d byte %lu c%d state differs from the run without the session\n", k, (int)j, (int)jj, (unsigned long)B, K);
                else if ((!r.quietUsed)&&(!baseQuiet)&&(r.MirrorsWithout(K) != baseMir)&&(reported.insert("aim"+itos((long)jj)).second)) printf("%ld ORACLE FAIL as-if-never op#%d x%d byte %lu c%d a client mirror differs from the run without the session\n", k, (int)j, (int)jj, (unsigned long)B, K);
             }
@@ -820,6 +851,7 @@ static void RunCase(long k, const std::string & line)
       if ((isCmd)&&(applies)&&(valid)&&(main->w.alive(main->widx[K])))
       {
          const std::string after = main->ForeignView(K);
+         if ((after != before)&&(getenv("ISO_DEBUG"))) fprintf(stderr, "BEFORE: %s\nAFTER:  %s\n", before.c_str(), after.c_str());
          if (after != before) printf("%ld ORACLE FAIL frame op#%d c%d a command of an unprivileged session changed something outside its subtree\n", k, (int)j, K);
       }
       if ((code == "d")&&(valid))
@@ -830,6 +862,7 @@ static void RunCase(long k, const std::string & line)
          {
             Run base(K);
             for (size_t i=0; i<j; i++) (void) base.Exec(ops[i], NULL, NULL);
+            if ((base.ObsWithout(K) != main->ObsWithout(K))&&(getenv("ISO_DEBUG"))) fprintf(stderr, "BASE: %s\nMAIN: %s\n", base.ObsWithout(K).c_str(), main->ObsWithout(K).c_str());
             if (base.ObsWithout(K) != main->ObsWithout(K)) printf("%ld ORACLE FAIL as-if-never op#%d c%d state differs from the run without the session\n", k, (int)j, K);
             else if ((!base.quietUsed)&&(!main->quietUsed)&&(base.MirrorsWithout(K) != main->MirrorsWithout(K))) printf("%ld ORACLE FAIL as-if-never op#%d c%d a client mirror differs from the run without the session\n", k, (int)j, K);
          }
